@@ -556,6 +556,6 @@ Fixpoint readers_at (te : tenv) (tm : typmap) (fuel : nat) : readers :=
   end.
 
 (* Decoder.Decode / ToObject: fresh tables; fuel linear in the input *)
-Definition decode_fuel (bs : bytes) : nat := 4 * length bs + 16.
+Definition decode_fuel (bs : bytes) : nat := 8 * length bs + 16.
 Definition decode (te : tenv) (tm : typmap) (bs : bytes) : dres dval :=
   R_rd (readers_at te tm (decode_fuel bs)) dstate0 bs.
